@@ -61,6 +61,7 @@ func specSigSlot(wire enc.Wire, idx int, est uint, hdr int, typ byte) bool {
 //@   ensures value.Interest != nil && old(value.Interest.NameV) != nil && encoder.Interest_encoder.NameV_needDigest ==> specDigestName(value.Interest.NameV)
 //@   ensures value.Interest != nil && old(value.Interest.NameV) != nil ==> fresh(value.Interest.NameV) || sliceArr(value.Interest.NameV) == old(sliceArr(value.Interest.NameV))
 //@   ensures value.Interest != nil && value.Interest.ApplicationParameters != nil ==> encoder.Interest_encoder.ApplicationParameters_length == uint(enc.SpecWireLen(value.Interest.ApplicationParameters, len(value.Interest.ApplicationParameters)))
+//@   ensures [lp-frame-length] value.Interest == nil && value.Data == nil && value.LpPacket != nil && SpecSimpleLp(value.LpPacket) ==> encoder.length == uint(SpecLpFrameLen(value.LpPacket))
 
 //@ func (*PacketEncoder).Encode
 //@   trusted
@@ -79,6 +80,9 @@ func specSigSlot(wire enc.Wire, idx int, est uint, hdr int, typ byte) bool {
 //@   ensures value.Interest != nil && value.Data == nil && value.LpPacket == nil && value.Interest.NameV != nil && value.Interest.ApplicationParameters != nil && encoder.Interest_encoder.NameV_needDigest ==> specInterestWire(result, 1+enc.SpecTLLen(uint64(encoder.Interest_encoder.length)), encoder.Interest_encoder.NameV_pos, uint64(encoder.Interest_encoder.ApplicationParameters_length))
 //@   ensures value.Interest != nil && value.Data == nil && value.LpPacket == nil && value.Interest.ApplicationParameters != nil && encoder.Interest_encoder.SignatureValue_estLen > 0 && encoder.Interest_encoder.SignatureValue_wireIdx >= 0 ==> encoder.Interest_encoder.SignatureValue_wireIdx > 1 && sliceArr(result[encoder.Interest_encoder.SignatureValue_wireIdx-1]) != sliceArr(result[0])
 //@   ensures encoder.Interest_encoder.ApplicationParameters_length == old(encoder.Interest_encoder.ApplicationParameters_length)
+//@   ensures encoder.length == old(encoder.length)
+//@   ensures [wire-sum] SpecWireSum(result, len(result)) == int(encoder.length)
+//@   ensures [wire-sum-mono] forallIn(0, len(result), func(i int) bool { return 0 <= SpecWireSum(result, i) && SpecWireSum(result, i) <= SpecWireSum(result, i+1) && SpecWireSum(result, i+1) <= int(encoder.length) })
 
 
 // specDigestName: the name ends with a ParametersSha256DigestComponent holding a 32-byte value.
